@@ -233,6 +233,8 @@ class Kernel:
             b = self.expr(e[1], env)
             if b == ("self",):
                 return ("field", e[2])
+            if isinstance(b, tuple) and b[0] == "field" and e[2].isdigit():
+                return ("field", "%s.%s" % (b[1], e[2]))
             if isinstance(b, tuple) and b[0] == "tuple" and e[2].isdigit():
                 return b[1][int(e[2])]
             return ("call", "." + e[2], b, [])
